@@ -21,7 +21,7 @@ META = {
         "case = (basis, 2-4 thread programs of 1-3 queries from {count, sorted(of_length), membership, "
         "list(up_to_length), re-create Av(equal basis) then count}, schedule). The harness owns the schedule: "
         "every line of permset.py is a preemption point and so is every step of a lazily consumed enumeration, the class lock is replaced by a cooperative lock whose "
-        "acquisition is a scheduling point; schedules are Hypothesis-generated choice lists, plus PCT-style "
+        "acquisition is a scheduling point; in a third of the cases the class is not created beforehand, so the threads also race to construct it from equal bases; schedules are Hypothesis-generated choice lists, plus PCT-style "
         "priority schedules, plus round-robin / run-to-completion corner schedules. Every query result is compared "
         "with the sequential answer of the brute-force model; exceptions and deadlocks are violations. A real-"
         "thread stress run (real lock, switch interval 1e-6 s) complements it. Non-trivial: some thread was blocked "
@@ -103,6 +103,9 @@ def _run_query(av, jbasis, q, pause=None):
     up_to_length are consumed lazily, one permutation at a time, as user code does, so other
     threads can run (and build or compact levels) while an enumeration is half-way."""
     kind = q[0]
+    if av is None:
+        # the class does not exist yet in this process: every thread builds it from an equal basis
+        av = Av([_to_lib(b) for b in jbasis])
 
     def drain(it):
         out = []
@@ -145,14 +148,18 @@ def _make_chooser(spec):
 
 
 def _chooser_at_pause(spec, pauses):
-    """Run thread `first` until it has consumed `after` items of an enumeration (or ends), then
+    """Run thread `first` until it has consumed `after` items of an enumeration (unit "pause") or
+    has been scheduled `after` times (unit "step": the first lines of its first call), then
     the other threads to completion in index order, then the rest of `first`: puts the other
     threads' level building and compaction in the middle of a half-consumed enumeration."""
     first, after = spec["first"], spec["after"]
+    by_steps = spec.get("unit", "pause") == "step"
+    ran = [0]
 
     def choose(step, runnable, prev):
         f = first % (max(runnable) + 1)
-        if f in runnable and pauses.get(f, 0) < after:
+        if f in runnable and (ran[0] if by_steps else pauses.get(f, 0)) < after:
+            ran[0] += 1
             return f
         others = [i for i in runnable if i != f]
         return others[0] if others else runnable[0]
@@ -187,7 +194,8 @@ def check_schedule(case):
     # (one class-wide lock today); instances made inside the block get cooperative locks too
     with sched.Interpose(s, permset_mod, [Av] + [c for c in Av.__mro__[1:] if c.__module__.startswith("permuta")]):
         try:
-            av = Av([_to_lib(b) for b in jbasis])
+            av = Av([_to_lib(b) for b in jbasis]) if case.get("precreate", True) else None
+
             def pause():
                 me = threading.current_thread().sched_idx
                 pauses[me] = pauses.get(me, 0) + 1
@@ -330,7 +338,12 @@ def schedule_cases(draw, pct=False):
         spec = {"mode": "pct", "prio": list(prio), "changes": changes}
     else:
         spec = {"mode": "round_robin"}
-    return {"basis": basis, "programs": programs, "schedule": spec}
+    precreate = draw(st.integers(0, 2)) != 0
+    if not precreate and draw(st.booleans()):
+        # park one thread within the first lines of its first call (the construction of the class)
+        # while the others run to completion
+        spec = {"mode": "at_pause", "unit": "step", "first": draw(st.integers(0, len(programs) - 1)), "after": draw(st.integers(1, 40))}
+    return {"basis": basis, "programs": programs, "schedule": spec, "precreate": precreate}
 
 
 @st.composite
